@@ -616,6 +616,9 @@ class RTCPeerConnection(AsyncIOEventEmitter):
 
         :rtype: :class:`RTCDataChannel`
         """
+        # check state is valid
+        self.__assertNotClosed()
+
         if maxPacketLifeTime is not None and maxRetransmits is not None:
             raise ValueError("Cannot specify both maxPacketLifeTime and maxRetransmits")
 
